@@ -29,6 +29,8 @@ def topic_matches(filt: str, topic: str) -> bool:
 class FakeClient:
     instances: list["FakeClient"] = []
     plan: dict = {}  # class-level fault plan for the next instance: {"connect": exc, "subscribe": exc, "publish": exc, "exit": exc}
+    suspend: set = set()  # operations ("connect", "subscribe") that wait for the broker: the explorer completes them
+    gates: list = []  # [(operation, future)] of suspended operations, oldest first
 
     def __init__(self, hostname, port=1883, **kwargs) -> None:
         self.hostname, self.port, self.kwargs = hostname, port, kwargs
@@ -44,7 +46,19 @@ class FakeClient:
         self._mid = 0
         FakeClient.instances.append(self)
 
+    async def _gate(self, op: str) -> None:
+        if op in FakeClient.suspend:
+            fut = self._loop.create_future()
+            entry = (op, fut)
+            FakeClient.gates.append(entry)
+            try:
+                await fut
+            finally:
+                if entry in FakeClient.gates:
+                    FakeClient.gates.remove(entry)
+
     async def __aenter__(self):
+        await self._gate("connect")
         if "connect" in self.fail:
             raise self.fail["connect"]
         self.entered += 1
@@ -56,6 +70,7 @@ class FakeClient:
             raise self.fail["exit"]
 
     async def subscribe(self, topic, qos=0, **kwargs):
+        await self._gate("subscribe")
         if "subscribe" in self.fail:
             raise self.fail["subscribe"]
         self.subscriptions.append((topic, qos))
